@@ -655,6 +655,50 @@ impl Area for BuilderArea {
                 }
                 None => "bad-op".into(),
             },
+            // checkpoints at great nesting depth (a builder of its own, never finished: the tree itself would be too deep to
+            // drop recursively): a valid revert, a valid wrap and three `finish_node`s after them must all go through
+            ["deepcp", n] => {
+                let n: usize = n.parse().unwrap_or(0);
+                cx.count("op.deepcp");
+                cx.nontrivial();
+                let r = catch(|| {
+                    let mut b: GreenNodeBuilder<'static, 'static, K> = GreenNodeBuilder::new();
+                    for _ in 0..n {
+                        b.start_node(K(0));
+                    }
+                    let cp1 = b.checkpoint();
+                    b.token(K(10), "a");
+                    let mut steps: Vec<&'static str> = vec![];
+                    if std::panic::catch_unwind(std::panic::AssertUnwindSafe(|| b.revert_to(cp1))).is_err() {
+                        steps.push("a valid revert_to panicked");
+                    }
+                    b.token(K(10), "b");
+                    let cp2 = b.checkpoint();
+                    b.token(K(10), "c");
+                    if std::panic::catch_unwind(std::panic::AssertUnwindSafe(|| b.start_node_at(cp2, K(2)))).is_err() {
+                        steps.push("a valid start_node_at panicked");
+                    }
+                    for _ in 0..3.min(n + 1) {
+                        if std::panic::catch_unwind(std::panic::AssertUnwindSafe(|| b.finish_node())).is_err() {
+                            steps.push("finish_node of a node that is still open panicked");
+                            break;
+                        }
+                    }
+                    // the builder is dropped unfinished: its stacks are flat
+                    steps
+                });
+                match r {
+                    Ok(steps) if steps.is_empty() => "deep ok".into(),
+                    Ok(steps) => {
+                        cx.fail("C09", format!("with {} open nodes: {}", n, steps.join("; ")));
+                        format!("deep fail {}", steps.len())
+                    }
+                    Err(m) => {
+                        cx.fail("C09", format!("with {} open nodes: {}", n, m));
+                        "deep panic".into()
+                    }
+                }
+            }
             ["cp"] => match self.builder.as_ref() {
                 Some((b, _)) => {
                     let cp = b.checkpoint();
